@@ -168,9 +168,11 @@ def _substitute_original_strings(original_source: str, new_source: str) -> str:
             core.is_valid_python(new_formatting)
             and core.match_template(core.parse(new_formatting), template)
         ):
-            most_common_original_formatting = collections.Counter(original_formattings).most_common(
-                1
-            )[0][0]
+            # Counted in the list, where the first of the most common ones is the same in
+            # every process. A set of them has no most common element, and no order.
+            most_common_original_formatting = collections.Counter(
+                original_string_formattings[node.value]
+            ).most_common(1)[0][0]
         else:
             continue
 
@@ -230,12 +232,12 @@ def _substitute_original_fstrings(original_source: str, new_source: str) -> str:
         str: new_source, but with consistent string formattings as in original_source
     """
     original_ast = core.parse(original_source)
-    original_string_formattings = collections.defaultdict(set)
+    original_string_formattings = collections.defaultdict(list)
     for node in core.walk(original_ast, ast.JoinedStr):
         code = core.get_code(node, original_source)
         unparsed_code = core.unparse(node)
         if core.is_valid_python(code):
-            original_string_formattings[unparsed_code].add(code)
+            original_string_formattings[unparsed_code].append(code)
 
     replacements = {}
     new_ast = core.parse(new_source)
